@@ -1202,6 +1202,10 @@ class Interp:
         if isinstance(f, Opaque):
             if f.name.startswith("log"):
                 return None
+            if f.name in ("torch.cuda.is_available",):
+                return False      # device management is dropped by the ingestion (CPU semantics)
+            if f.name in ("torch.cuda.empty_cache",):
+                return None
             if f.name.startswith("einops."):
                 from . import einops_rules
 
@@ -1429,6 +1433,7 @@ BUILTINS = {
     "len": _b_len, "range": _b_range, "isinstance": _b_isinstance, "max": _b_minmax("max"), "min": _b_minmax("min"),
     "reversed": lambda x: list(reversed(list(x))), "enumerate": lambda x, start=0: list(enumerate(list(x), start)),
     "zip": lambda *a: list(zip(*[list(x) for x in a])), "hasattr": _b_hasattr, "getattr": _b_getattr,
+    "next": lambda it, *d: next(iter(it), *d), "iter": iter,
     "print": lambda *a, **k: None, "sum": _b_sum, "abs": _b_abs, "sorted": sorted, "any": any, "all": all,
     "True": True, "False": False, "None": None, "NotImplementedError": Opaque("NotImplementedError"),
     "ValueError": Opaque("ValueError"), "Exception": Opaque("Exception"), "round": round, "map": lambda f, xs: [f(x) for x in xs],
